@@ -105,6 +105,10 @@ def check(run):
     cases += sw
     for _ in range(150 if run.tier == "quick" else 1200):
         cases.append(parse_case(n, random_model(rng, run.tier), {"random model": n})); n += 1
+    # a mesh whose index range starts beyond 65535 (the start index is a u32 in the format)
+    big = mdlcases.mesh(rng, [(0, 2, 0)], 0, 3, [rng.randrange(3) for _ in range(65541)], 1, 0)
+    late = mdlcases.mesh(rng, [(0, 2, 0), (7, 8, 0)], 0, 4, [3, 2, 1, 0, 1, 2], 2, 65541)
+    cases.append(parse_case(n, mdlcases.model(rng, 5, [[big, late]]), {"late mesh": "start index 65541"})); n += 1
     fx = open(REPO + "/resources/tests/c0201e0038_top_zeroed.mdl", "rb").read()
     run.notes["fixture_bytes"] = len(fx)
     run.rule = ("every declaration of the bounded family enumerated by TLC (each supported (usage, type) pair alone on each stream, "
